@@ -65,7 +65,8 @@ class Ctx:
 
         self.inlined_aliases = inline_attribute_aliases(self.prog)
         self.renamed_params = canonicalise_private_params(self.prog)
-        self.renamed_helpers = canonicalise_private_helpers(self.prog)
+        self.renamed_helpers = dict(getattr(self.prog, "renamed_roles", {}))
+        self.renamed_helpers.update(canonicalise_private_helpers(self.prog))
         self.renamed_helpers.update(canonicalise_private_attributes(self.prog))
         register_program_exceptions(self.prog)
         self.res = Resolver(self.prog)
